@@ -105,6 +105,9 @@ type VerifClntInfo struct {
 	Cached   int      // request slots cached (each keeps its tag)
 	Pending  []uint16 // tags of the requests on the pending list, in list order
 	Err      bool
+	// the pending list as linked: the Req objects reached from reqfirst through next, and those
+	// reached from reqlast through prev (each walk ends after 65536 steps at the latest)
+	Forward, Backward []*Req
 }
 
 func VerifClnt(clnt *Clnt) VerifClntInfo {
@@ -112,8 +115,12 @@ func VerifClnt(clnt *Clnt) VerifClntInfo {
 	vi.FreeTags = len(clnt.tagpool.id)
 	vi.Cached = len(clnt.reqchan)
 	clnt.Lock()
-	for r := clnt.reqfirst; r != nil; r = r.next {
+	for r := clnt.reqfirst; r != nil && len(vi.Forward) < 65536; r = r.next {
 		vi.Pending = append(vi.Pending, r.tag)
+		vi.Forward = append(vi.Forward, r)
+	}
+	for r := clnt.reqlast; r != nil && len(vi.Backward) < 65536; r = r.prev {
+		vi.Backward = append(vi.Backward, r)
 	}
 	vi.Err = clnt.err != nil
 	clnt.Unlock()
